@@ -92,6 +92,11 @@ Lib ==
      \* ---- C05 consumer leaf: inject with a default, no slot (never raises)
      [data |-> << Data("inj", "inject", "", "p", "none"), Data("iq", "inject", "", "q", "noq") >>,
       tpl  |-> << T("L12"), [t |-> "fld", x |-> "inj", f |-> "f"], [t |-> "fld", x |-> "iq", f |-> "f"] >>]
+     ,
+     \* ---- C14 c14: a SILENT wrapper - its whole output is nested components (no text, no element of its own,
+     \* no Component.id echo): every root element of its children is a root of the wrapper too
+     [data |-> <<>>,
+      tpl  |-> << Comp(9, <<>>, FALSE, "none", <<>>), For("i", "xs", << Comp(6, <<>>, FALSE, "none", <<>>) >>) >>]
   >>
 
 Ctx == << <<"x", Str("px")>>, <<"y", Str("py")>>, <<"xs", [k |-> "l", v |-> <<"i1", "i2">>]>>,
@@ -99,7 +104,7 @@ Ctx == << <<"x", Str("px")>>, <<"y", Str("py")>>, <<"xs", [k |-> "l", v |-> <<"i
           <<"on", Str("1")>>, <<"off", Str("")>> >>
 
 \* which components the page may use
-CompSet == CASE Alphabet = "provide" -> {2, 4, 13} [] Alphabet = "elems" -> {6, 7, 8, 9, 10, 12}
+CompSet == CASE Alphabet = "provide" -> {2, 4, 13} [] Alphabet = "elems" -> {6, 7, 8, 9, 10, 12, 14}
              [] Alphabet = "scope" -> {1, 2, 3, 11} [] OTHER -> {1, 2, 3, 5}
 
 \* ---- page construction ----------------------------------------------------
@@ -158,6 +163,11 @@ AddKid(node) == stack' = [stack EXCEPT ![Len(stack)].kids = Append(@, node)]
 \* some iterations and none in others)
 CondFills == IF Alphabet = "slots"
              THEN {[t |-> "if", x |-> "i", a |-> << Fill(C(s), "", "", << T("cf") >>) >>, b |-> <<>>] : s \in {"a", "default"}}
+             \* scope: a complete fill under a {% with %} that re-binds a name the page (x) or the callee's data (y)
+             \* also binds, printing both - one leaf, so that "between" bindings are reached within the node bound
+             ELSE IF Alphabet = "scope"
+             THEN {[t |-> "with", x |-> v, e |-> C("kb"), a |-> << Fill(C(s), "", "", << Var("x"), Var("y") >>) >>]
+                     : v \in {"x", "y"}, s \in {"a", "default"}}
              ELSE {}
 Leaf == /\ n < MaxNodes
         /\ \/ ~InFillsBody(Len(stack)) /\ \E tok \in LeafTokens :
